@@ -8,6 +8,7 @@ Oracle       : from-scratch compile of the workbook with given inputs
 tour         : edge-covering walk of the state graph executed on real objects
 """
 import collections
+import time
 import json
 import os
 
@@ -251,13 +252,13 @@ def tour(g, make_model, on_step, max_steps=None, rnd=None):
     total = remaining
     steps = restarts = 0
     cur, model, hist = g.init, make_model(), []
+    budget = float(os.environ.get('VERIF_TOUR_BUDGET', '1500'))    # seconds per tour
+    t0 = time.time()
+    g.tour_truncated = False
 
-    dead = set()      # states from which no state with an unvisited edge is reachable
-
-    def bfs(start):
-        """shortest path (list of edge indexes) to a state with unvisited edges"""
-        if start in dead:
-            return None
+    def bfs(start, limit=3000):
+        """shortest path (list of edge indexes) to a state with unvisited edges,
+        looking at no more than `limit` states"""
         prev = {start: None}
         dq = collections.deque([start])
         while dq:
@@ -269,15 +270,47 @@ def tour(g, make_model, on_step, max_steps=None, rnd=None):
                     path.append((ps, i))
                     s = ps
                 return path[::-1]
+            if len(prev) > limit:
+                return None
             for i, (_, _, t) in enumerate(g.out.get(s, ())):
-                if t not in prev and t not in dead:
+                if t not in prev:
                     prev[t] = (s, i)
                     dq.append(t)
-        dead.update(prev)      # nothing open is reachable from any of these any more
         return None
+
+    # shortest paths from the initial state (computed once, when first needed):
+    # after a restart the tour walks straight to some state with unvisited edges
+    tree = {}
+    order = []
+
+    def from_init():
+        if not tree:
+            tree[g.init] = None
+            dq = collections.deque([g.init])
+            while dq:
+                s = dq.popleft()
+                order.append(s)
+                for i, (_, _, t) in enumerate(g.out.get(s, ())):
+                    if t not in tree:
+                        tree[t] = (s, i)
+                        dq.append(t)
+            order.reverse()          # pop() gives the states nearest to the start first
+        while order and not unvisited.get(order[-1]):
+            order.pop()
+        if not order:
+            return None
+        s, path = order[-1], []
+        while tree[s] is not None:
+            ps, i = tree[s]
+            path.append((ps, i))
+            s = ps
+        return path[::-1]
 
     while remaining:
         if max_steps and steps >= max_steps:
+            break
+        if time.time() - t0 > budget:
+            g.tour_truncated = True
             break
         if unvisited.get(cur):
             lst = unvisited[cur]
@@ -285,11 +318,11 @@ def tour(g, make_model, on_step, max_steps=None, rnd=None):
             remaining -= 1
             plan = [(cur, i)]
         else:
-            plan = bfs(cur)
-            if plan is None or len(hist) > 400:
+            plan = bfs(cur) if len(hist) <= 400 else None
+            if plan is None:
                 cur, model, hist = g.init, make_model(), []
                 restarts += 1
-                plan = bfs(cur)
+                plan = from_init()
                 if plan is None:
                     break
                 if not plan:
